@@ -230,3 +230,104 @@ def sym_match_fn(pattern, flags=0):
             return None
         return SymMatch(sp, text, r[0], r[1])
     return match
+
+
+class SymRegex:
+    """Drop-in for a compiled `re.Pattern` whose methods keep a symbolic text symbolic: the SAME pattern text and flags are
+    interpreted by SymPattern.  Implements findall / finditer / match / fullmatch / search with re's scanning rules (leftmost,
+    first-priority; after an empty match the scan advances by one).  Anything else raises Unsupported (the cell is then
+    inconclusive, never a verdict)."""
+    class Unsupported(Exception):
+        pass
+
+    def __init__(self, rx):
+        self.pattern, self.flags = rx.pattern, rx.flags
+        self.sp = SymPattern(rx.pattern, rx.flags)
+        self.groups = self.sp.tree.state.groups - 1
+        self.groupindex = dict(self.sp.tree.state.groupdict)
+
+    def _at(self, text, pos, nonempty=False):
+        for p, g in _m(self.sp.seq, 0, text, pos, self.sp.flags, {}, lambda p, g: iter(((p, g),))):
+            if nonempty and not (p > pos):
+                continue
+            return _SymM(self, text, pos, p, g)
+        return None
+
+    def match(self, text, pos=0):
+        return self._at(text, pos)
+
+    def fullmatch(self, text):
+        g = self.sp.fullmatch_groups(text)
+        return None if g is None else _SymM(self, text, 0, len(text), g)
+
+    def search(self, text, pos=0):
+        for m in self.finditer(text, pos):
+            return m
+        return None
+
+    def finditer(self, text, pos=0):
+        n = len(text)
+        after_empty = False
+        while pos <= n:
+            m = self._at(text, pos, nonempty=after_empty)      # re: no empty match right where the previous (empty) match ended
+            if m is None:
+                pos += 1
+                after_empty = False
+                continue
+            yield m
+            after_empty = not (m.end() > pos)
+            pos = m.end()
+
+    def findall(self, text, pos=0):
+        out = []
+        for m in self.finditer(text, pos):
+            if self.groups == 0:
+                out.append(m.group(0))
+            elif self.groups == 1:
+                out.append(m.group(1) if m.group(1) is not None else '')
+            else:
+                out.append(tuple(x if x is not None else '' for x in m.groups()))
+        return out
+
+    def __getattr__(self, name):
+        raise SymRegex.Unsupported('re.Pattern.%s is not modelled' % name)
+
+
+class _SymM:
+    def __init__(self, rx, text, start, end, g):
+        self.re, self.string, self._s, self._e, self.g = rx, text, start, end, g
+
+    def start(self, k=0):
+        return self._s if k == 0 else self.g.get(self._gid(k), (-1, -1))[0]
+
+    def end(self, k=0):
+        return self._e if k == 0 else self.g.get(self._gid(k), (-1, -1))[1]
+
+    def span(self, k=0):
+        return (self.start(k), self.end(k))
+
+    def _gid(self, k):
+        return self.re.groupindex[k] if isinstance(k, str) else k
+
+    def group(self, *ks):
+        if not ks:
+            ks = (0,)
+        r = []
+        for k in ks:
+            if k == 0:
+                r.append(self.string[self._s:self._e])
+            else:
+                gid = self._gid(k)
+                r.append(self.string[self.g[gid][0]:self.g[gid][1]] if gid in self.g else None)
+        return r[0] if len(r) == 1 else tuple(r)
+
+    def groups(self, default=None):
+        return tuple(self.string[self.g[i][0]:self.g[i][1]] if i in self.g else default for i in range(1, self.re.groups + 1))
+
+    @property
+    def lastindex(self):
+        ks = [i for i in self.g if i >= 1]
+        return max(ks, key=lambda i: self.g[i][1]) if ks else None
+
+    def __getitem__(self, k):
+        return self.group(k)
